@@ -4,12 +4,18 @@
 //   shared minimize <solver> <ls0|-> <lsk|-> <T> <reps> <seed> <eps> <max_evals> <nf> {<function id> <dims>}*nf
 //   shared loss     <loss> <n> <tsize> <T> <reps> <seed>
 //   shared dataset  <seed> <samples> <d> <ncat> <dsthreads> <T> <reps>
-//   shared predict  linear|gboost <seed> <samples> <d> <ncat> <dsthreads> <T> <reps>
+//   shared predict  linear|gboost <seed> <samples> <d> <ncat> <dsthreads> <T> <reps> [<batch> <maxn>]
+//       batch (default 16) = linear::batch / gboost::batch of the fitted model; maxn (default 0 = no cap) = every predict call
+//       gets at most maxn samples. maxn <= batch or dsthreads = 1: every call takes the INLINE path of pool_t::map (the caller
+//       runs the operator itself with tnum = 0), so T concurrent callers all use slot 0 of whatever per-thread buffers exist
 //       -> `ok <T> <calls> S <r…> C <r…> A <r…>`: the results (one token each) of the calls executed alone one after the other
 //          (S), then the same calls from T threads at once (C), then alone again (A). Every thread has its own function
 //          objects / buffers / logger; the solver, loss, tensors, dataset and fitted model are shared.
 //   wfit <wlearner> <seed> <samples> <d> <ncat> <task> <dup> <reps> <nconf> {<dsthreads> <hwcap> <ncpus> <delay>}*nconf
 //       -> `ok <nconf> {<reps> {<score> <pred-hash> 1 <nf> f…}*reps}*nconf`      (default criterion; bit-identical inputs)
+//       dup: 0 = the residuals follow the FIRST continuous feature, 1 = the same with duplicated columns, 2 = the residuals
+//       follow the LAST continuous feature, 3 = the LAST categorical feature (a fit that skips trailing features of the
+//       iterator's feature list for some (features, threads) pairs then differs from the sequential reference)
 //   fit linear <seed> <samples> <d> <ncat> <task> <loss> <folds> <split_seed> <model> <scaling> <solver> <eps> <max_evals>
 //              <noise> <batch> <dup> <nconf> {<dsthreads> <hwcap> <ncpus> <delay>}*nconf
 //   fit gboost <seed> <samples> <d> <ncat> <task> <loss> <folds> <split_seed> <max_rounds> <patience> <wscale> <shrinkage>
@@ -1435,11 +1441,13 @@ std::string op_wfit(toks_t& toks)
     a.d                = toks.i64();
     a.ncat             = toks.i64();
     a.classes          = read_task(toks.s());
-    const auto dup     = toks.i64() != 0;
+    const auto dupmode = toks.i64();
+    const auto dup     = dupmode == 1;
     const auto reps    = toks.i64();
     const auto configs = read_configs(toks);
     check_data(a);
-    if (reps < 1 || reps > 1000 || !toks.done())
+    if (reps < 1 || reps > 1000 || dupmode < 0 || dupmode > 3 || (dupmode == 2 && a.d < 1) || (dupmode == 3 && a.ncat < 1) ||
+        !toks.done())
     {
         throw bad_op("wfit arguments");
     }
@@ -1465,11 +1473,18 @@ std::string op_wfit(toks_t& toks)
         tensor4d_t gradients(cat_dims(dataset.samples(), dataset.target_dims()));
         {
             scalar_mem_t buffer;
-            const auto   column = a.d > 0 ? a.ncat : tensor_size_t{-1};
+            sclass_mem_t cbuffer;
+            const auto   column = dupmode == 2 ? (a.ncat + a.d - 1) : (a.d > 0 ? a.ncat : tensor_size_t{-1});
             for (tensor_size_t i = 0; i < dataset.samples(); ++i)
             {
                 auto base = 0.0;
-                if (column >= 0)
+                if (dupmode == 3)
+                {
+                    const auto one   = arange(i, i + 1);
+                    const auto label = dataset.select(one, a.ncat - 1, cbuffer)(0);
+                    base             = label == 0 ? 1.0 : (label == 1 ? -1.0 : 0.25);
+                }
+                else if (column >= 0)
                 {
                     const auto one = arange(i, i + 1);
                     base           = dataset.select(one, column, buffer)(0) < 0.0 ? 1.0 : -1.0;
@@ -1515,9 +1530,16 @@ std::string op_shared_predict(toks_t& toks)
     const auto dsthreads = toks.i64();
     const auto T         = toks.i64();
     const auto reps      = toks.i64();
+    auto       batch     = int64_t{16};
+    auto       maxn      = int64_t{0};
+    if (!toks.done())
+    {
+        batch = toks.i64();
+        maxn  = toks.i64();
+    }
     check_threads(T, reps);
     check_data(a);
-    if (dsthreads < 1 || dsthreads > 64 || !toks.done())
+    if (dsthreads < 1 || dsthreads > 64 || batch < 10 || batch > 10000 || maxn < 0 || !toks.done())
     {
         throw bad_op("predict arguments");
     }
@@ -1541,7 +1563,7 @@ std::string op_shared_predict(toks_t& toks)
     if (kind == "linear")
     {
         auto model                        = linear_t::all().get("ridge");
-        model->parameter("linear::batch") = 16;
+        model->parameter("linear::batch") = batch;
         remove_logs(model->fit(dataset, samples, *loss, fit_params));
         learner = std::move(model);
     }
@@ -1550,7 +1572,7 @@ std::string op_shared_predict(toks_t& toks)
         auto model                            = std::make_unique<gboost_model_t>();
         model->parameter("gboost::max_rounds") = 10;
         model->parameter("gboost::patience")  = 3;
-        model->parameter("gboost::batch")     = 16;
+        model->parameter("gboost::batch")     = batch;
         auto prototypes                       = rwlearners_t{};
         prototypes.emplace_back(wlearner_t::all().get("stump"));
         prototypes.emplace_back(wlearner_t::all().get("affine"));
@@ -1573,8 +1595,16 @@ std::string op_shared_predict(toks_t& toks)
     {
         for (int64_t r = 0; r < reps; ++r)
         {
-            const auto which = std::make_shared<indices_t>(
+            auto which = std::make_shared<indices_t>(
                 subset(dataset.samples(), a.seed + static_cast<uint64_t>(t) * 17ULL + static_cast<uint64_t>(r), r == 0 && t % 2 == 0));
+            if (maxn > 0 && which->size() > maxn)
+            {
+                // different callers keep different (overlapping) windows of their subsets
+                const auto room  = which->size() - maxn;
+                const auto begin = static_cast<tensor_size_t>((static_cast<uint64_t>(t) * 7ULL + static_cast<uint64_t>(r) * 3ULL) %
+                                                              static_cast<uint64_t>(room + 1));
+                which            = std::make_shared<indices_t>(which->slice(begin, begin + maxn));
+            }
             calls[static_cast<size_t>(t)].emplace_back(
                 [&dataset, &shared, which]()
                 {
